@@ -10,6 +10,13 @@ import seeds
 
 
 def _sim(script):
+    import multiprocessing
+    import resource
+    if multiprocessing.current_process().name != "MainProcess":      # never limit the driver process itself
+        try:
+            resource.setrlimit(resource.RLIMIT_AS, (2 << 30, 2 << 30))
+        except Exception:
+            pass
     try:
         out, st = cmdsim.run(script)
         return ("ok", out, st)
@@ -17,8 +24,8 @@ def _sim(script):
         return ("stuck", str(e), None)
     except cmdsim.Budget:
         return ("budget", "", None)
-    except RecursionError:
-        return ("budget", "recursion", None)
+    except (RecursionError, MemoryError):
+        return ("budget", "recursion/memory", None)
 
 
 def run(res, b, tier, seed):
@@ -41,60 +48,72 @@ def run(res, b, tier, seed):
         r = _sim(bytes.fromhex(c.out["BATCH"][1]).decode("utf-8", "replace"))
         if r[0] != "ok" or r[1].strip() != c.meta["exp"] or ((r[2] != 0) != c.meta["err"]):
             calib_bad.append((c.id, str(r)[:200]))
-    # generated programs with a 32-bit reference result
-    gen_prog.BITS = 32
-    try:
-        cfgs = [gen_prog.Cfg(big_ints=False), gen_prog.Cfg(funcs=True, big_ints=False), gen_prog.Cfg(funcs=True, slices=True, strops=True, big_ints=False),
-                gen_prog.Cfg(funcs=True, slices=True, strops=True, effects=True, big_ints=False, max_nest=4)]
+    # generated programs with a 32-bit reference result (batch by batch: bounded memory)
+    cfgs = [gen_prog.Cfg(big_ints=False), gen_prog.Cfg(funcs=True, big_ints=False), gen_prog.Cfg(funcs=True, slices=True, strops=True, big_ints=False),
+            gen_prog.Cfg(funcs=True, slices=True, strops=True, effects=True, big_ints=False, max_nest=4)]
+    kinds = {}
+    n = 400 if quick else 6000
+    dis, fails, outcome = [], [], {}
+    ncases, distinct, first_case = 0, set(), None
+    for base in range(0, n, 400):
         cases = []
-        kinds = {}
-        n = 400 if quick else 6000
-        for i in range(n):
-            cfg = cfgs[i % len(cfgs)]
-            tr = (lambda p: gen_prog.add_tracers(p)) if cfg.effects else None
-            g = gen_prog.generate2(rng, cfg, tr)
-            if g is None:
-                continue
-            prog, src, out, status, ks = g
-            for k, v in ks.items():
-                kinds[k] = kinds.get(k, 0) + v
-            cases.append(pipeline.Case("g%d" % i, {"main.tsh": src.encode()},
-                                       meta=dict(src=src, expected_out="".join(l + "\n" for l in out), expected_status=status,
-                                                 panic_in_func=ks.get("_panic_in_func", False), empty_substr=ks.get("_empty_substr", False))))
-    finally:
-        gen_prog.BITS = 64
-    pipeline.run_pipe(b, cases, "w")
-    pipeline.model_batch(b, cases)
-    dis, fails = [], []
-    for c in cases:
-        cls, pl = c.out.get("BATCH", ("MISSING", ""))
-        impl = "OK " + pl if cls == "OK" else cls
-        if c.meta.get("model_batch") != impl:
-            dis.append(c)
-        if cls != "OK":
-            fails.append((c, "not transpiled: %s %s" % (cls, bytes.fromhex(pl).decode("utf-8", "replace")[:200] if pl else ""), None))
-    runnable = [c for c in cases if c.out.get("BATCH", ("", ""))[0] == "OK"]
-    sims = common.pmap_proc(_sim, [bytes.fromhex(c.out["BATCH"][1]).decode("utf-8", "replace") for c in runnable], chunksize=4)
-    outcome = {}
-    for c, r in zip(runnable, sims):
-        outcome[r[0]] = outcome.get(r[0], 0) + 1
-        if r[0] != "ok" or r[1] != c.meta["expected_out"] or r[2] != c.meta["expected_status"]:
-            fails.append((c, "behaviour under the cmd model", r))
-        probs = batchcheck.analyse(bytes.fromhex(c.out["BATCH"][1]).decode("utf-8", "replace"))
-        if probs:
-            fails.append((c, "structure: " + probs[0], None))
+        gen_prog.BITS = 32
+        try:
+            for i in range(base, min(n, base + 400)):
+                cfg = cfgs[i % len(cfgs)]
+                tr = (lambda p: gen_prog.add_tracers(p)) if cfg.effects else None
+                g = gen_prog.generate2(rng, cfg, tr)
+                if g is None:
+                    continue
+                prog, src, out, status, ks = g
+                for k, v in ks.items():
+                    kinds[k] = kinds.get(k, 0) + v
+                cases.append(pipeline.Case("g%d" % i, {"main.tsh": src.encode()},
+                                           meta=dict(src=src, expected_out="".join(l + "\n" for l in out), expected_status=status,
+                                                     panic_in_func=ks.get("_panic_in_func", False), empty_substr=ks.get("_empty_substr", False),
+                                                     minint=ks.get("_minint", False))))
+        finally:
+            gen_prog.BITS = 64
+        pipeline.run_pipe(b, cases, "w")
+        pipeline.model_batch(b, cases)
+        for c in cases:
+            cls, pl = c.out.get("BATCH", ("MISSING", ""))
+            impl = "OK " + pl if cls == "OK" else cls
+            if c.meta.get("model_batch") != impl:
+                dis.append(c)
+            if cls != "OK":
+                fails.append((c, "not transpiled: %s %s" % (cls, bytes.fromhex(pl).decode("utf-8", "replace")[:200] if pl else ""), None))
+        runnable = [c for c in cases if c.out.get("BATCH", ("", ""))[0] == "OK"]
+        sims = common.pmap_proc(_sim, [bytes.fromhex(c.out["BATCH"][1]).decode("utf-8", "replace") for c in runnable], chunksize=4)
+        for c, r in zip(runnable, sims):
+            outcome[r[0]] = outcome.get(r[0], 0) + 1
+            if r[0] != "ok" or r[1] != c.meta["expected_out"] or r[2] != c.meta["expected_status"]:
+                fails.append((c, "behaviour under the cmd model", r))
+            probs = batchcheck.analyse(bytes.fromhex(c.out["BATCH"][1]).decode("utf-8", "replace"))
+            if probs:
+                fails.append((c, "structure: " + probs[0], None))
+        ncases += len(cases)
+        distinct |= {hash(c.meta["src"]) for c in cases}
+        if first_case is None and cases:
+            first_case = dict(program=cases[0].meta["src"][:400], expected_stdout=cases[0].meta["expected_out"][:200])
+        keep = {id(c) for c in dis} | {id(f[0]) for f in fails}
+        for c in cases:
+            if id(c) not in keep:
+                c.out.clear()
+        if len(fails) > 200:
+            break
     res.coverage.update(dict(
-        evaluations=len(cases),
-        distinct_nontrivial=len({c.meta["src"] for c in cases}),
+        evaluations=ncases,
+        distinct_nontrivial=len(distinct),
         rule="generated programs of the scalar, function, slice/string and effect fragments with 32-bit integers and a cmd-neutral string alphabet; the "
              "implementation's Batch script is executed by a line-oriented model of cmd.exe (parse-time %-expansion, run-time !-expansion, goto with "
              "forward-then-wrap label search, numeric-vs-string IF, call/exit /B frames, 32-bit set /A, for /f over a literal) and compared with the 32-bit "
              "reference result; the cmd model is validated on every run against the expected outputs of the suite's shared test bodies; distinct = programs",
-        samples=[dict(program=cases[0].meta["src"][:400], expected_stdout=cases[0].meta["expected_out"][:200])],
+        samples=[first_case],
         cmd_model_validation=dict(test_bodies=len(ccases), reproduced=len(ccases) - len(calib_bad)),
         cmd_model_outcomes=outcome,
         generator_distribution=kinds,
-        correspondence=dict(stage="batch script of the whole model pipeline (lexer, parser, transpiler, Model.ConvBatch)", compared=len(cases), disagreements=len(dis)),
+        correspondence=dict(stage="batch script of the whole model pipeline (lexer, parser, transpiler, Model.ConvBatch)", compared=ncases, disagreements=len(dis)),
         oracle_failures=len(fails),
     ))
     res.assumptions += ["no cmd.exe exists in the sandbox: 'cmd.exe's rules' are those of lib/cmdsim.py (DESIGN.md appendix F), calibrated on the suite's expectations",
@@ -108,11 +127,16 @@ def run(res, b, tier, seed):
             continue
         if c.meta["empty_substr"] and res.known_finding("substring-of-empty-string", what):
             continue
+        if c.meta["minint"] and r and r[0] == "stuck" and "number too large" in r[1] and res.known_finding("minint32-not-rereadable", what):
+            continue
         real.append((c, what, r))
     for c, what, r in real[:3]:
         res.violation("oracle", dict(what=what, program=c.meta["src"], expected_stdout=c.meta["expected_out"], expected_status=c.meta["expected_status"],
                                      cmd_model=str(r)[:1500] if r else None,
                                      script=bytes.fromhex(c.out["BATCH"][1]).decode("utf-8", "replace") if c.out.get("BATCH", ("",))[0] == "OK" else None))
+    if dis:
+        c = dis[0]
+        common.log("first disagreement:", c.id, c.meta.get("model_batch", "")[:80], "|", str(c.out.get("BATCH"))[:80])
     if not real and not calib_bad and (dis or not pr["ok"]):
         if dis:
             c = dis[0]
